@@ -44,6 +44,9 @@ for d in sorted(glob.glob(os.path.join(ROOT, 'seeded', '*'))):
     need = need[:330] + ('...' if len(need) > 330 else '')
     keys = [re.sub(r'^C\d+/', '', k)[:80] for k in c['check']['violation_keys'][:2]]
     det = ('`' + '`, `'.join(keys) + '`') if c['check']['exit'] == 1 else '**missed**'
+    o = c.get('detected_by_other_check')
+    if o and c['check']['exit'] != 1:
+        det = '**missed** by its own check; reported by %s\'s: `%s`' % (o['property'], re.sub(r'^C\d+/', '', o['keys'][0])[:80])
     rows.append('| %s | %s | %s |' % (os.path.basename(d), esc(need), det))
 t8 = '\n'.join(rows)
 
